@@ -20,6 +20,7 @@ pub mod c16;
 pub mod c17;
 pub mod c18;
 pub mod c19;
+pub mod c20;
 pub mod srvchecks;
 
 pub struct CheckDef {
@@ -53,6 +54,7 @@ pub fn all() -> Vec<CheckDef> {
         c17::def(),
         c18::def(),
         c19::def(),
+        c20::def(),
     ]
 }
 
